@@ -171,7 +171,7 @@ def cdwf_scenario(nsys, record_all=None):
         dt, t0 = Real('dt'), Real('start_time')
         N = Int('num_steps')
         ra = Bool('record_all') if record_all is None else record_all
-        ip.assume(z3.And(dt > 0, N >= 1), 'requires dt > 0, num_steps >= 1 (num_steps = 0 is outside the contract: see DESIGN)')
+        ip.assume(z3.And(dt > 0, N >= 0), 'requires dt > 0, num_steps >= 0')
         systems = [Obj('SystemF', {'idx': i}) for i in range(nsys)]
         mfs = Obj('MFS', {'system_list': systems})
         init_field = Cx(Real('a0_re'), Real('a0_im'))
